@@ -5,6 +5,7 @@ from typing import Any, Optional, Sequence
 import numpy as np
 
 from skops.io._audit import Node, get_tree
+from skops.io._numpy import get_bit_generator_cls
 from skops.io._utils import LoadContext, gettype
 
 PROTOCOL = 1
@@ -28,9 +29,7 @@ class RandomGeneratorNode(Node):
     def _construct(self):
         # first restore the state of the bit generator
         bit_generator_state = self.children["bit_generator_state"].construct()
-        bit_generator_cls = gettype(
-            "numpy.random", bit_generator_state["bit_generator"]
-        )
+        bit_generator_cls = get_bit_generator_cls(bit_generator_state["bit_generator"])
         bit_generator = bit_generator_cls()
         bit_generator.state = bit_generator_state
 
